@@ -61,6 +61,10 @@ type walker struct {
 	calls    map[string][]call // helper -> call sites (with mode)
 	methods  map[string]bool
 	lockFree bool // the current method contains no call on the mutex at all
+	// methods of Loop of the shape  func (l *Loop) h(fn func()) { l.mu.Lock(); defer l.mu.Unlock(); fn() }
+	// (or RLock/RUnlock, or an explicit unlock after the call): a call h(func() {...}) made while
+	// nothing is held runs the literal under that lock, in line
+	lockHelpers map[string]mode
 }
 
 type call struct {
@@ -230,6 +234,20 @@ func (w *walker) stmt(st ast.Stmt, m mode) mode {
 		if c, ok := x.X.(*ast.CallExpr); ok {
 			if f, ok := c.Fun.(*ast.FuncLit); ok {
 				w.closure(f, m)
+			}
+			if sel, ok := c.Fun.(*ast.SelectorExpr); ok && len(c.Args) == 1 {
+				if id, ok := sel.X.(*ast.Ident); ok && id.Name == w.recv {
+					if hm, isHelper := w.lockHelpers[sel.Sel.Name]; isHelper {
+						if lit, ok := c.Args[0].(*ast.FuncLit); ok {
+							if m != mNone {
+								hm = mUnknown // a lock helper called while a lock is held
+							}
+							w.nested(lit.Body, hm) // in line: what it assigns to outer variables stays known
+							return m
+						}
+						return mUnknown
+					}
+				}
 			}
 		}
 		w.reads(x.X, m)
@@ -475,6 +493,73 @@ func main() {
 	}
 }
 
+// lockHelperMode recognises  func (l *Loop) h(fn func()) { l.mu.Lock(); defer l.mu.Unlock(); fn() }
+// and its RLock / explicit-unlock variants: nothing else may be in the body.
+func lockHelperMode(fd *ast.FuncDecl, mu string) (mode, bool) {
+	if fd.Type.Params == nil || len(fd.Type.Params.List) != 1 || len(fd.Type.Params.List[0].Names) != 1 || (fd.Type.Results != nil && len(fd.Type.Results.List) > 0) {
+		return mNone, false
+	}
+	ft, ok := fd.Type.Params.List[0].Type.(*ast.FuncType)
+	if !ok || (ft.Params != nil && len(ft.Params.List) > 0) || (ft.Results != nil && len(ft.Results.List) > 0) {
+		return mNone, false
+	}
+	param := fd.Type.Params.List[0].Names[0].Name
+	recv := ""
+	if len(fd.Recv.List[0].Names) == 1 {
+		recv = fd.Recv.List[0].Names[0].Name
+	}
+	muOp := func(e ast.Expr) string {
+		c, ok := e.(*ast.CallExpr)
+		if !ok || len(c.Args) != 0 {
+			return ""
+		}
+		s, ok := c.Fun.(*ast.SelectorExpr)
+		if !ok {
+			return ""
+		}
+		f, ok := s.X.(*ast.SelectorExpr)
+		if !ok || f.Sel.Name != mu {
+			return ""
+		}
+		if id, ok := f.X.(*ast.Ident); !ok || id.Name != recv {
+			return ""
+		}
+		return s.Sel.Name
+	}
+	var ops []string
+	for _, st := range fd.Body.List {
+		switch x := st.(type) {
+		case *ast.ExprStmt:
+			if op := muOp(x.X); op != "" {
+				ops = append(ops, op)
+				continue
+			}
+			if c, ok := x.X.(*ast.CallExpr); ok && len(c.Args) == 0 {
+				if id, ok := c.Fun.(*ast.Ident); ok && id.Name == param {
+					ops = append(ops, "call")
+					continue
+				}
+			}
+			return mNone, false
+		case *ast.DeferStmt:
+			if op := muOp(x.Call); op != "" {
+				ops = append(ops, "defer "+op)
+				continue
+			}
+			return mNone, false
+		default:
+			return mNone, false
+		}
+	}
+	switch strings.Join(ops, ";") {
+	case "Lock;defer Unlock;call", "Lock;call;Unlock":
+		return mW, true
+	case "RLock;defer RUnlock;call", "RLock;call;RUnlock":
+		return mR, true
+	}
+	return mNone, false
+}
+
 func analyse(fset *token.FileSet, f *ast.File) ([]access, []string) {
 	var notes []string
 	// the struct: find the RWMutex field and the map-of-map field
@@ -534,6 +619,13 @@ func analyse(fset *token.FileSet, f *ast.File) ([]access, []string) {
 		methods[fd.Name.Name] = fd
 		names[fd.Name.Name] = true
 	}
+	helpers := map[string]mode{}
+	for name, fd := range methods {
+		if hm, ok := lockHelperMode(fd, mu); ok {
+			helpers[name] = hm
+			notes = append(notes, fmt.Sprintf("Loop.%s runs its argument under %s", name, hm.coq()))
+		}
+	}
 	per := map[string][]access{}
 	calls := map[string][]call{}
 	var order []string
@@ -548,7 +640,7 @@ func analyse(fset *token.FileSet, f *ast.File) ([]access, []string) {
 			recv = fd.Recv.List[0].Names[0].Name
 		}
 		w := &walker{fset: fset, recv: recv, method: name, muField: mu, tblField: tbl,
-			alias: map[string]bool{}, snap: map[string]bool{}, calls: calls, methods: names}
+			alias: map[string]bool{}, snap: map[string]bool{}, calls: calls, methods: names, lockHelpers: helpers}
 		w.lockFree = true
 		ast.Inspect(fd.Body, func(n ast.Node) bool {
 			if e, ok := n.(ast.Expr); ok && w.muCall(e) != "" {
